@@ -1332,6 +1332,7 @@ pub fn oracle_interp(sp: &Sp, real: &RealSp, a: &St, b: &St, t: f64, out: &mut V
         out.push(finding("C16", "steer_not_on_shortest_path", format!("{sp:?}: the state a step of length {} from a towards b is {dar} away from a (a = {a:?}, b = {b:?}, t = {t})", t * dab)));
     }
     if dar - t * dab > tl {
+        out.push(finding("C15", "tree_edge_longer_than_step", format!("{sp:?}: steering by {} from a towards b yields a state {dar} away from a: the tree edge is longer than the extension step (a = {a:?}, b = {b:?}, t = {t})", t * dab)));
         out.push(finding("C05", "steer_overshoot", format!("{sp:?}: a step of length {} from a towards b lands {dar} away from a (a = {a:?}, b = {b:?}, t = {t})", t * dab)));
     }
     if dar - t * dab > tl || drb - (1.0 - t) * dab > tl {
